@@ -204,13 +204,23 @@ func (s *Solver) Check(conj []*Term, wantModel []*Term) (SatResult, []uint64) {
 		}
 	}
 	var sb strings.Builder
+	// every query is self-contained: (reset), then only the definitions in the
+	// cone of the asserted terms. (Long push/pop sessions made z3 slower by
+	// orders of magnitude than the same query posed on its own.)
+	s.defd = map[int]bool{}
+	s.ufDecl = map[string]bool{}
+	sb.WriteString("(reset)\n")
+	if !strings.Contains(s.bin, "cvc5") {
+		fmt.Fprintf(&sb, "(set-option :timeout %d)\n", s.timeoutMs)
+	} else {
+		sb.WriteString("(set-logic ALL)\n(set-option :produce-models true)\n")
+	}
 	for _, c := range live {
 		s.define(c, &sb)
 	}
 	for _, m := range wantModel {
 		s.define(m, &sb)
 	}
-	sb.WriteString("(push 1)\n")
 	for _, c := range live {
 		sb.WriteString("(assert ")
 		sb.WriteString(c.ref())
@@ -222,56 +232,64 @@ func (s *Solver) Check(conj []*Term, wantModel []*Term) (SatResult, []uint64) {
 			fp = true
 		}
 	}
-	if fp || strings.Contains(s.bin, "cvc5") || s.plain {
-		sb.WriteString("(check-sat)\n")
-	} else {
-		fmt.Fprintf(&sb, "(check-sat-using (try-for qfaufbv %d))\n", s.timeoutMs)
-	}
 	start := time.Now()
-	s.send(sb.String())
+	// Two-stage portfolio: the incremental core answers small queries in
+	// about a millisecond; arithmetic-heavy ones go to the bit-blasting tactic.
+	tactic := !(fp || strings.Contains(s.bin, "cvc5") || s.plain)
 	res := Unknown
-	type lr struct {
-		l   string
-		err error
-	}
-	ch := make(chan lr, 1)
-	go func() {
-		line, err := s.readLine()
-		for err == nil && strings.HasPrefix(line, "(error") {
-			s.errors = append(s.errors, line)
-			line, err = s.readLine()
+	stage := func(cmd string, wait int) (SatResult, bool) {
+		s.send(sb.String() + cmd)
+		sb.Reset()
+		type lr struct {
+			l   string
+			err error
 		}
-		ch <- lr{line, err}
-	}()
-	var line string
-	var err error
-	select {
-	case r := <-ch:
-		line, err = r.l, r.err
-	case <-time.After(time.Duration(s.timeoutMs+10000) * time.Millisecond):
-		// the solver ignored its own limit: kill and restart it
-		s.cmd.Process.Kill()
-		<-ch
-		err = fmt.Errorf("hard timeout")
-	}
-	if err != nil {
-		if err.Error() != "hard timeout" {
-			s.errors = append(s.errors, "solver died: "+err.Error())
+		ch := make(chan lr, 1)
+		go func() {
+			line, err := s.readLine()
+			for err == nil && strings.HasPrefix(line, "(error") {
+				s.errors = append(s.errors, line)
+				line, err = s.readLine()
+			}
+			ch <- lr{line, err}
+		}()
+		var line string
+		var err error
+		select {
+		case r := <-ch:
+			line, err = r.l, r.err
+		case <-time.After(time.Duration(wait+10000) * time.Millisecond):
+			s.cmd.Process.Kill()
+			<-ch
+			err = fmt.Errorf("hard timeout")
 		}
+		if err != nil {
+			if err.Error() != "hard timeout" {
+				s.errors = append(s.errors, "solver died: "+err.Error())
+			}
+			s.Close()
+			s.start()
+			return Unknown, false
+		}
+		switch line {
+		case "sat":
+			return Sat, true
+		case "unsat":
+			return Unsat, true
+		}
+		return Unknown, true
+	}
+	alive := true
+	if tactic {
+		res, alive = stage("(check-sat-using qfaufbv)\n", s.timeoutMs)
+	} else {
+		res, alive = stage("(check-sat)\n", s.timeoutMs)
+	}
+	if !alive {
 		s.Seconds += time.Since(start).Seconds()
-		s.Close()
-		s.start()
 		s.Queries++
 		s.NUnknown++
 		return Unknown, nil
-	}
-	switch line {
-	case "sat":
-		res = Sat
-	case "unsat":
-		res = Unsat
-	default:
-		res = Unknown
 	}
 	var vals []uint64
 	if res == Sat && len(wantModel) > 0 {
@@ -317,7 +335,6 @@ func (s *Solver) Check(conj []*Term, wantModel []*Term) (SatResult, []uint64) {
 			}
 		}
 	}
-	s.send("(pop 1)\n")
 	s.Seconds += time.Since(start).Seconds()
 	if s.onSlow != nil && time.Since(start).Seconds() > 2 {
 		s.onSlow(time.Since(start).Seconds(), res, len(sb.String()))
